@@ -227,10 +227,30 @@ func genC18Loop(seed uint64, tier string) *world.Scenario {
 			sc.Env = append(sc.Env, world.EnvEvent{At: sec(t), Kind: "chown", Path: s, Value: kernel.Pick(r, 0, otherID)*100000 + kernel.Pick(r, 0, otherID)})
 		}
 	}
+	if br := kernel.NewRand(seed, "c18loop.busy"); br.Bool(0.5) {
+		// a script is held open for writing for a while (a package upgrade rewriting it in place): starting it
+		// fails with "text file busy"; when the writer lets go, the file is no longer root-controlled
+		nb := br.Range(1, 3)
+		bt := 3.8
+		for i := 0; i < nb; i++ {
+			bt += 0.3 + br.Float()*1.5
+			s := scripts[br.Intn(len(scripts))]
+			hold := 0.06 + br.Float()*0.4
+			sc.Env = append(sc.Env, world.EnvEvent{At: sec(bt), Kind: "exe.hold", Path: s})
+			if br.Bool(0.5) {
+				sc.Env = append(sc.Env, world.EnvEvent{At: sec(bt + hold), Kind: "exe.release", Path: s, Text: "chmod", Value: 0o777})
+			} else {
+				sc.Env = append(sc.Env, world.EnvEvent{At: sec(bt + hold), Kind: "exe.release", Path: s, Text: "chown", Value: otherID*100000 + otherID})
+			}
+			bt += hold
+		}
+		sc.Variant = "busy-executables"
+	}
 	return sc
 }
 
 type c18LoopOracle struct {
+	busy    map[string]bool // executable currently held open for writing
 	st      *stage.Stage
 	res     *check.Result
 	markers map[string]int
@@ -279,8 +299,19 @@ func (o *c18LoopOracle) OnEvent(ev *kernel.Event) {
 		grew := markerLines(marker) > o.markers[marker]
 		o.markers[marker] = markerLines(marker)
 		o.res.Probe("loop-executions-judged")
+		now, okNow := statPoint(ev.ID)
 		if !refAllowed(*p) {
 			o.res.Violate("C18", "rejected-not-executed", "rejected-not-executed loop", ev.Seq, ev.T, "%s with %+v (mode %o) passed the check and was started (marker grew: %v)", ev.ID, *p, p.mode, grew)
+		} else if grew && okNow && !refAllowed(now) {
+			// no virtual time passes between the check and the end of the command it admits, and attributes
+			// change at environment events only: the file that ran was started after a flip, without a fresh check
+			o.res.Violate("C18", "checked-before-every-start", "checked-before-every-start loop", ev.Seq, ev.T,
+				"%s passed its check with %+v at %s, but when the command that ran returned (%s) the file was %+v: it was started again without being checked again", ev.ID, *p, ev.T, o.st.K.Now(), now)
+		} else if strings.Contains(ev.Err, "text file busy") || o.busy[ev.ID] {
+			o.res.Probe("loop-starts-refused(text file busy)")
+			if grew {
+				o.res.Probe("loop-busy-yet-ran")
+			}
 		} else if p.mode&0o111 != 0 && !grew {
 			o.res.Violate("C18", "allowed-executed", "allowed-executed loop", ev.Seq, ev.T, "%s with %+v (mode %o) did not run: %s", ev.ID, *p, p.mode, ev.Err)
 		}
@@ -299,6 +330,36 @@ func runC18Loop(t *testing.T, sc *world.Scenario) *check.Result {
 		return res
 	}
 	return runL1(t, sc, func(st *stage.Stage, res *check.Result) []Oracle {
-		return []Oracle{&c18LoopOracle{st: st, res: res, markers: map[string]int{}, pending: map[string]*attrPoint{}}}
+		o := &c18LoopOracle{st: st, res: res, markers: map[string]int{}, pending: map[string]*attrPoint{}, busy: map[string]bool{}}
+		held := map[string]*os.File{}
+		st.ExtraEnv = func(e world.EnvEvent) func() {
+			path := strings.ReplaceAll(e.Path, "@W@", st.W.Dir)
+			switch e.Kind {
+			case "exe.hold":
+				return func() {
+					if f, err := os.OpenFile(path, os.O_WRONLY, 0); err == nil {
+						held[path] = f
+						o.busy[path] = true
+						st.W.FaultsFired["exe.busy"]++
+					}
+				}
+			case "exe.release":
+				return func() {
+					if e.Text == "chmod" {
+						_ = os.Chmod(path, os.FileMode(e.Value))
+					} else {
+						_ = os.Chown(path, e.Value/100000, e.Value%100000)
+					}
+					st.W.FaultsFired["perm.flip"]++
+					if f := held[path]; f != nil {
+						_ = f.Close()
+						delete(held, path)
+					}
+					o.busy[path] = false
+				}
+			}
+			return nil
+		}
+		return []Oracle{o}
 	})
 }
